@@ -6,6 +6,10 @@ import (
 	"fmt"
 	"math/rand"
 
+	"github.com/google/go-tdx-guest/abi"
+	pb "github.com/google/go-tdx-guest/proto/tdx"
+	"google.golang.org/protobuf/proto"
+
 	"verifharness/core"
 	"verifharness/world"
 )
@@ -176,6 +180,58 @@ func C01(c *core.Ctx) {
 		// signed message = body||header, or only the body
 		try(w, "forgery", "signature over body||header", asm(world.SignRaw(r, att, append(append([]byte{}, body...), hdr...)), key, rp, rs, f.AuthData))
 		try(w, "forgery", "signature over the body only", asm(world.SignRaw(r, att, body), key, rp, rs, f.AuthData))
+	}
+	// ---- message-level inputs: the genuine quote as a *pb.QuoteV4 with a field changed in a way
+	// that the re-serialisation could hide (high bits of 16-bit fields, over-long byte fields) ----
+	for wi, w := range worlds {
+		base, err := abi.QuoteToProto(w.Quote.Raw)
+		if err != nil {
+			panic(err)
+		}
+		type mm struct {
+			name string
+			f    func(q *pb.QuoteV4)
+		}
+		qe := func(q *pb.QuoteV4) *pb.QEReportCertificationData {
+			return q.SignedData.CertificationData.QeReportCertificationData
+		}
+		muts := []mm{
+			{"unchanged message (control)", func(q *pb.QuoteV4) {}},
+			{"QeReport.IsvSvn + 0x10000", func(q *pb.QuoteV4) { qe(q).QeReport.IsvSvn += 0x10000 }},
+			{"QeReport.IsvSvn + 0x80000000", func(q *pb.QuoteV4) { qe(q).QeReport.IsvSvn += 0x80000000 }},
+			{"QeReport.IsvProdId + 0x10000", func(q *pb.QuoteV4) { qe(q).QeReport.IsvProdId += 0x10000 }},
+			{"Header.Version + 0x10000", func(q *pb.QuoteV4) { q.Header.Version += 0x10000 }},
+			{"Header.AttestationKeyType + 0x10000", func(q *pb.QuoteV4) { q.Header.AttestationKeyType += 0x10000 }},
+			{"QeAuthData.ParsedDataSize + 0x10000", func(q *pb.QuoteV4) { qe(q).QeAuthData.ParsedDataSize += 0x10000 }},
+			{"CertificationData.CertificateDataType + 0x10000", func(q *pb.QuoteV4) { q.SignedData.CertificationData.CertificateDataType += 0x10000 }},
+			{"ReportData with an extra trailing byte", func(q *pb.QuoteV4) { q.TdQuoteBody.ReportData = append(q.TdQuoteBody.ReportData, 0) }},
+			{"ReportData one byte short", func(q *pb.QuoteV4) { q.TdQuoteBody.ReportData = q.TdQuoteBody.ReportData[:63] }},
+			{"MrTd with an extra trailing byte", func(q *pb.QuoteV4) { q.TdQuoteBody.MrTd = append(q.TdQuoteBody.MrTd, 0) }},
+			{"UserData with an extra trailing byte", func(q *pb.QuoteV4) { q.Header.UserData = append(q.Header.UserData, 0) }},
+			{"QE report data with an extra trailing byte", func(q *pb.QuoteV4) { qe(q).QeReport.ReportData = append(qe(q).QeReport.ReportData, 0) }},
+			{"QE Reserved4 one byte short", func(q *pb.QuoteV4) { qe(q).QeReport.Reserved4 = qe(q).QeReport.Reserved4[:59] }},
+			{"fifth RTMR appended", func(q *pb.QuoteV4) { q.TdQuoteBody.Rtmrs = append(q.TdQuoteBody.Rtmrs, make([]byte, 48)) }},
+			{"attestation key with an extra trailing byte", func(q *pb.QuoteV4) { q.SignedData.EcdsaAttestationKey = append(q.SignedData.EcdsaAttestationKey, 0) }},
+			{"TeeType 0x181", func(q *pb.QuoteV4) { q.Header.TeeType = 0x181 }},
+			{"MiscSelect bit flipped", func(q *pb.QuoteV4) { qe(q).QeReport.MiscSelect ^= 1 << 20 }},
+		}
+		for mi, m := range muts {
+			q := proto.Clone(base.(*pb.QuoteV4)).(*pb.QuoteV4)
+			m.f(q)
+			col, crl, lname := levelOf(wi + mi)
+			sc := scenarioFromWorld(w, col, crl)
+			sc.UseMsg, sc.Msg = true, q
+			same := proto.Equal(q, base.(*pb.QuoteV4))
+			runScenario(c, "message-field", m.name+" @"+lname, sc, func(cl uint64, err error) string {
+				if cl == 0 && !same {
+					return "a message that differs from the signed quote (" + m.name + ") was accepted"
+				}
+				if cl != 0 && same {
+					return "the genuine quote as a message was rejected: " + err.Error()
+				}
+				return ""
+			}, true)
+		}
 	}
 	// ---- random multi-byte mutation ----
 	for i := 0; i < c.Scale(150, 5000); i++ {
